@@ -5,6 +5,16 @@ from pathlib import Path
 VERIF = Path(__file__).resolve().parent.parent
 
 CLAIMS = {
+    "C01": dict(
+        technique="TLA+ oracle (Heap.tla CEq) + TLC enumeration of heaps, pairs and single-point variations replayed into the library (several value pools, second build, two other processes) + TLC trace validation",
+        text="CEq is defined in TLA+ from the statement (class, comparable property atoms, children field by field and position by position); TLC checks it is an equivalence that is blind to origins and non-comparable properties, enumerates every heap of <= N objects over three class profiles with all pairs and all single-point variations, and the library's content_id / is_equal answers are compared with CEq under adversarial concretization pools (typed look-alikes, separator strings, frozensets built in two orders), against a second build, and against content ids computed in processes with another hash seed and reordered field declarations. Recorded random forests are validated by Trace_Content.tla.",
+        note="Trusted: TLC, zoo renderer, pools (distinct atoms are values that differ in value or type). blake2b collisions at digest size 8 are assumed absent.",
+        design="6 C01"),
+    "C02": dict(
+        technique="TLA+ oracle (Heap.tla Eq = CEq + origin equality per position) + TLC enumeration replayed into the library + TLC trace validation",
+        text="Eq is defined in TLA+ over two heaps; TLC checks it is an equivalence refining CEq and enumerates every heap of <= N objects with two origin atoms, all pairs and every single-position origin flip / property change / child removal; the library's ==, != (both orders), hash stability, non-node operands and transitivity over all triples are compared with Eq. Recorded random forests with mutated copies are validated by Trace_Content.tla.",
+        note="Trusted: TLC, zoo renderer, origin pool (distinct origin atoms are origins that compare unequal).",
+        design="6 C02"),
     "C05": dict(
         technique="TLA+ oracle (Heap.tla Pre/Post/Bfs/Gather) + TLC heap enumeration replayed into the library + TLC trace validation of recorded traversals",
         text="TLC enumerates every heap of <= N objects over three class profiles and, for the tree rooted at the newest object, every prune x filter subset; the expected dfs/bfs/gather/children observations are computed by the TLA+ operators of Heap.tla and replayed against the real library (order, position info, offered sets). Random trees of up to 40 objects are recorded from the library and accepted or rejected line by line by Trace_Traverse.tla.",
